@@ -106,14 +106,17 @@ Fixpoint pairs_eqb (x y : list pair) : bool :=
   | _, _ => false
   end.
 
-(* 3: the parameters of a well-formed query keep their order and multiplicity *)
+(* 3: the well-formed parameters of a query keep their order and multiplicity - whatever
+   droppable pieces (empty, with a semicolon, with a bad escape) stand before, between or
+   behind them.  Both sides are read with the same rule: the well-formed pieces, decoded
+   (UrlTextProofs.parse_query_wf_pieces: that list IS url.ParseQuery's, in source order). *)
+Definition wf_params (q : bytes) : list pair := map decode_seg (filter wf_seg (pieces q)).
 Definition mon_query (c : ucase) : bool :=
   match text_query (trim_quotes (c_text c)), c_outs c with
   | Some q, OOk o :: _ =>
-    if wf_query_text q then
+    if forallb visible q then
       let q' := match text_query o with Some x => x | None => [] end in
-      forallb wf_seg (pieces q')
-      && pairs_eqb (map decode_seg (pieces q)) (map decode_seg (pieces q'))
+      pairs_eqb (wf_params q) (wf_params q')
     else true
   | _, _ => true
   end.
